@@ -42,6 +42,11 @@ meta={"property":ID,"variant":V,"breaks":ID,
  "violation_lines":int(nv),"of_which_no_failing_input_found":int(nf),
  "caught": int(nv)>0, "other_checks_violation_lines":oth.strip(),
  "repo_commit": subprocess.run(["git","-C","/repo","log","--format=%h","-1"],capture_output=True,text=True).stdout.strip()}
+try:
+    old=json.load(open(d+"/meta.json"))
+    if "history" in old: meta["history"]=old["history"]
+    if old.get("caught") and not meta["caught"]: meta["regressed"]=True
+except Exception: pass
 json.dump(meta,open(d+"/meta.json","w"),indent=1)
 P
 rm -rf $W
